@@ -33,7 +33,7 @@ func (nm names) coqTx(t *Tx) string {
 		ref = fmt.Sprintf("(Some %d%%N)", nm.ref[t.Ref])
 	}
 	return fmt.Sprintf("{| t_id := %s; t_ts := %s; t_off := %s; t_ref := %s; t_postings := [%s]; t_meta := %s |}",
-		zc(t.ID), zc(t.TS), zc(t.Off), ref, strings.Join(ps, "; "), nm.coqMeta(t.Meta))
+		zc(t.ID), zc(t.TS), zc(t.Off*sec), ref, strings.Join(ps, "; "), nm.coqMeta(t.Meta))
 }
 
 func (nm names) coqLog(e LogIn) string {
